@@ -5,6 +5,12 @@ OBLIGATIONS = [
          bounds="one emission/reservation step from an arbitrary state; two arbitrary settings of use list / debug format / cross list / list mode / list mask",
          assumes=["code-file writer, chunk list and debug-info lists replaced by call recorders (AddChunk may answer 'overlap' arbitrarily)", "not inside a structure definition"]),
 ]
+import importlib.util, os
+_p = os.path.join(os.path.dirname(__file__), "..", "C01", "spec.py")
+_sp = importlib.util.spec_from_file_location("c01spec17", _p); _m01 = importlib.util.module_from_spec(_sp); _sp.loader.exec_module(_m01)
+OBLIGATIONS.append(dict(_m01.BASE, name="crossref_noninterference", src="../C01/symtab.c", defs=["K_XREF", "STRINGSIZE=16"],
+    functions=["asmpars.c:LookupSymbol", "FindNode", "FindNode_FNode", "AddReference", "IsSymbolUsed", "IsSymbolDefined"],
+    bounds="one symbol, any sequence of 3 operations from {IFDEF test, IFUSED test, evaluation}, cross-reference option on or off"))
 META = dict(outside=["bit-for-bit determinism across whole runs, working directory, output path, message language", "option placement (argv / ASCMD / key file): cmdarg.c string parsing",
                      "-h / -SPLITBYTE, reproducibility of listing text", "MakeList frame condition: see C19 makelist (code buffers and counters untouched)"],
             assumptions=["malloc never fails"])
